@@ -87,3 +87,72 @@ def c17_callgraph(tier):
                     ok = False
     out.append(ob(f"callgraph:C17:all {calls} likelihood call sites in the samplers call self.log_likelihood(...)", ok and calls >= 5, "samplers"))
     return out
+
+
+def c20_entropy(tier):
+    """every ambient entropy site of the package is guarded (reachable only when the user supplied no source) or seeded"""
+    f = Front()
+    out = []
+    n_sites = 0
+    for mod, tree in f.modules.items():
+        parents = {}
+        for node in ast.walk(tree):
+            for ch in ast.iter_child_nodes(node):
+                parents[ch] = node
+        for node in ast.walk(tree):
+            if not isinstance(node, ast.Call):
+                continue
+            fn = ast.unparse(node.func)
+            kind = None
+            if fn.endswith("random.default_rng") and not node.args and not node.keywords:
+                kind = "unseeded numpy generator"
+            elif fn == "ArrayRNG" and not any(k.arg == "seed" for k in node.keywords):
+                kind = "unseeded ArrayRNG"
+            elif fn.endswith("random.key") and node.args and isinstance(node.args[0], ast.Constant):
+                kind = "constant jax key"
+            elif fn in ("torch.manual_seed",):
+                kind = "torch seed"
+            elif fn in ("torch.rand", "torch.randn", "torch.randperm", "torch.randn_like", "torch.rand_like"):
+                kind = "global torch generator"
+            if kind is None:
+                continue
+            n_sites += 1
+            snippet = ast.unparse(parents.get(node, node))[:70].replace("\n", " ")
+            # guard analysis
+            guarded = False
+            p = parents.get(node)
+            if isinstance(p, ast.BoolOp) and isinstance(p.op, ast.Or) and p.values[-1] is node and len(p.values) >= 2:
+                guarded = True                                  # `user_value or <ambient>`
+            cur = node
+            while cur in parents:
+                par = parents[cur]
+                if isinstance(par, ast.If) and cur in par.body and isinstance(par.test, ast.Compare) and isinstance(par.test.ops[0], ast.Is) and \
+                        isinstance(par.test.comparators[0], ast.Constant) and par.test.comparators[0].value is None:
+                    guarded = True                              # inside `if user_value is None:`
+                cur = par
+            ok = guarded
+            why = "guarded: reached only when the user supplied none"
+            if kind == "constant jax key" and not guarded:
+                ok = True                                       # a constant key is deterministic, not ambient entropy
+                why = "constant key: deterministic"
+            if kind == "torch seed":
+                # must be unconditional at the top level of __init__ and take the `seed` parameter (seed=0 included)
+                fnode = next((x for x in ast.walk(tree) if isinstance(x, ast.FunctionDef) and any(y is node for y in ast.walk(x))), None)
+                top = fnode is not None and any(isinstance(st, ast.Expr) and st.value is node for st in fnode.body)
+                ok = top and node.args and isinstance(node.args[0], ast.Name) and node.args[0].id == "seed"
+                why = "unconditional torch.manual_seed(seed) in the flow constructor"
+            if kind == "global torch generator":
+                ok = True
+                why = "draws from the global torch generator seeded by BaseTorchFlow.__init__ (assumption: nothing else reseeds it in between)"
+            out.append(ob(f"entropy-site:C20:{mod}: `{snippet}` [{kind}] is {why.split(':')[0]}", bool(ok), f"{mod}", why))
+    out.append(ob(f"entropy-site:C20:{n_sites} entropy sites enumerated from the ast (expected at least 10)", n_sites >= 10, "package"))
+    # routing table from the real signatures: every SMC sampler class must offer a route for the resampling generator
+    from contracts.aspire_api import SAMPLER_TYPES
+    for st, cls in sorted(set(SAMPLER_TYPES.items())):
+        init = f.find_method(cls, "__init__")
+        smp = f.find_method(cls, "sample")
+        ip, sp = signature(init.node), signature(smp.node)
+        has = "rng" in ip[0] + ip[3] or "rng" in sp[0] + sp[3]
+        if f.is_subclass(cls, "SMCSampler"):
+            out.append(ob(f"routing:C20:{cls} ({st}) offers a way to supply the resampling generator (rng in __init__: {'rng' in ip[0] + ip[3]}, in sample: {'rng' in sp[0] + sp[3]})", has, cls))
+    return out
